@@ -322,6 +322,9 @@ func realHelper(mode string, in any, out any) error {
 	return json.Unmarshal(ob, out)
 }
 
+// state-cache statistics of the explorer, summed over scenarios
+var cutExecs, hbStates int64
+
 func main() {
 	explore.BeforeExec = []func(){cdi.VerifResetGlobals}
 	for i, a := range os.Args {
@@ -454,6 +457,8 @@ func main() {
 		}
 		modelEv[o.Index] = o.Events
 		r.AddEvals(o.Executions, o.Executions)
+		cutExecs, hbStates = cutExecs+o.Pruned, hbStates+o.States
+		r.Extra["executions_cut_at_an_explored_state"], r.Extra["happens_before_states_stored"] = cutExecs, hbStates
 		r.States.Add(o.Points)
 		r.Transitions.Add(o.Points)
 		for k := range o.Outcomes {
